@@ -427,6 +427,13 @@ def hIsnAdd (ps tok pcs qs rhs : String) : Verdict :=
     let emptyShare := Qs.any fun id => pieces.all fun (k, _) => maskHas k id
     if rhs.startsWith "panic" then
       .bad (if emptyShare then "isn-additive-empty-share-panic" else "panic") ("expected=ok:" ++ renderIdVals vals ++ " observed=" ++ rhs) else
+    -- a share without pieces (its holder lies in every maximal unqualified set): `Share.ToAdditive`
+    -- refuses it with ErrArgument (since /repo 4be0d57; it panicked before).  Over an unqualified
+    -- quorum that is only mirrored; over a qualified quorum the conversion the property promises fails.
+    if emptyShare && !rhs.startsWith "ok:" then
+      (if pol.isQualified Q then
+        .bad "isn-additive-empty-share-refused" ("qualified quorum " ++ hexList Qs ++ " of " ++ tok ++ " contains a holder whose ISN share has no pieces; expected=ok:" ++ renderIdVals vals ++ " observed=" ++ rhs)
+       else mirror "err:argument" rhs) else
     if !rhs.startsWith "ok:" then
       (if pol.isQualified Q then .bad "isn-additive-refused" rhs else mirror ("ok:" ++ renderIdVals vals) rhs) else
     match parseIdVals? (rhs.drop 3).toString with
